@@ -280,9 +280,11 @@ func c09IndexID(c *cx, rid string, f *eng.Fn, via string) {
 				c.r.Check(rid, f, "array index "+f.Norm(e, &pt), "E-idx(d): a variable index into an array of N elements is bounded by its type or by dominating facts 0 <= i < N", e.Pos(), why == "", why+"; reached via "+via)
 				return true
 			}
-			// (b) constant index into a slice
+			// (b) constant index into a slice or a string
 			if _, isSlice := info.TypeOf(e.X).Underlying().(*types.Slice); !isSlice {
-				return true
+				if b, isB := info.TypeOf(e.X).Underlying().(*types.Basic); !isB || b.Info()&types.IsString == 0 || f.ConstVal(e.X) != nil {
+					return true
+				}
 			}
 			if _, ok := f.ConstInt(e.Index); !ok {
 				return true
